@@ -48,6 +48,13 @@ enum E4
   E4_B = 7,
   E4_C = 0x7fffffff
 };
+// an enumeration with a fixed underlying type whose width differs between the application and the lp32 guest
+enum EL : long
+{
+  EL_A = 0,
+  EL_B = 7,
+  EL_C = 0x7fffffff
+};
 int gfn(long);
 static int32_t guest_gfn(int32_t) { return 0; }
 
@@ -97,7 +104,7 @@ struct gw;
   };
 GW(bool, 1, false) GW(char, 1, true) GW(signed char, 1, true) GW(unsigned char, 1, false) GW(short, WSEL(2, 4), true) GW(unsigned short, WSEL(2, 4), false)
 GW(int, WSEL(4, 8), true) GW(unsigned, WSEL(4, 8), false) GW(long, WSEL(4, 8), true) GW(unsigned long, WSEL(4, 8), false) GW(long long, 8, true) GW(unsigned long long, 8, false)
-GW(E4, 4, true) GW(char16_t, WSEL(2, 4), false) GW(char32_t, WSEL(4, 8), false)
+GW(E4, WSEL(4, 8), true) GW(EL, WSEL(4, 8), true) GW(char16_t, WSEL(2, 4), false) GW(char32_t, WSEL(4, 8), false)
 #undef GW
 
 static void set_bg(uint8_t pat)
@@ -206,7 +213,7 @@ static void int_type(uint64_t& blk)
   const char* tnm = gw<T>::n;
   std::vector<T> vals;
   if constexpr (std::is_same_v<T, bool>) vals = { false, true };
-  else if constexpr (std::is_enum_v<T>) vals = { E4_A, E4_B, E4_C, (E4)-5 };
+  else if constexpr (std::is_enum_v<T>) vals = { (T)0, (T)7, (T)0x7fffffff, (T)-5 };
   else vals = lattice<T>();
   // guest bit patterns for loads
   std::vector<i128> gpats;
@@ -601,7 +608,7 @@ int main(int argc, char** argv)
   IT(bool) IT(char) IT(signed char) IT(unsigned char) IT(short) IT(unsigned short) IT(char16_t)
 #endif
 #ifdef C07_B
-  IT(int) IT(unsigned) IT(long) IT(unsigned long) IT(E4) IT(char32_t)
+  IT(int) IT(unsigned) IT(long) IT(unsigned long) IT(E4) IT(EL) IT(char32_t)
 #endif
 #ifdef C07_C
   IT(long long) IT(unsigned long long)
